@@ -285,6 +285,62 @@ def _reordered(batches, table):
     return merged != seq
 
 
+# ---------------------------------------------------------------------------
+# reference semantics of one committed batch (oracle side, plain Python lists)
+# ---------------------------------------------------------------------------
+def _sql_eq(a, b):
+    return a is not None and b is not None and a == b
+
+
+def _ref_apply(schema, tables, ops):
+    """rows of every table after one batch executed by the DAO on its own:
+    per table all deletes, then all inserts, then all updates (each kind in
+    queue order, grouped by statement template at first occurrence)"""
+    out = {k: [list(r) for r in v] for k, v in tables.items()}
+    by_table = {}
+    for o in ops:
+        by_table.setdefault(o[1], []).append(o)
+    for ti, tops in by_table.items():
+        ncols, pk = schema[ti]
+        rows = out.get(str(ti), [])
+        order = {}
+        for i, o in enumerate(tops):
+            order.setdefault(_op_sig(o), i)
+        for o in sorted(tops, key=lambda o: (_op_sig(o)[0], order[_op_sig(o)])):
+            if o[0] == "del":
+                w = [(c, v) for c, v in o[2] if c < ncols]
+                rows = [r for r in rows if not all(_sql_eq(r[c], v) for c, v in w)]
+            elif o[0] in ("insd", "insl"):
+                if o[0] == "insd":
+                    d = dict((c, v) for c, v in reversed(o[2]))
+                    new = [d.get(c) for c in range(ncols)]
+                else:
+                    new = (list(o[2]) + [None] * ncols)[:ncols]
+                if pk:
+                    rows = [r for r in rows if not all(_sql_eq(r[c], new[c]) for c in pk)]
+                rows = rows + [new]
+            else:
+                s_ = [(c, v) for c, v in o[2] if c < ncols]
+                w = [(c, v) for c, v in o[3] if c < ncols]
+                new_rows = []
+                for r in rows:
+                    if all(_sql_eq(r[c], v) for c, v in w):
+                        r = list(r)
+                        for c, v in s_:
+                            r[c] = v
+                    new_rows.append(r)
+                rows = new_rows
+        if rows:
+            out[str(ti)] = sorted(rows, key=lambda r: json.dumps(r))
+        else:
+            out.pop(str(ti), None)
+    return out
+
+
+def _has_magic(ops):
+    return any(v == MAGIC for o in ops for part in o[2:] for v in ([x[1] for x in part] if part and isinstance(part[0], list) else part))
+
+
 class DbStream(Stream):
     name = "db"
     coq_import = "From Cylc Require Import Model.Db."
@@ -297,7 +353,7 @@ class DbStream(Stream):
             "contents, n_tries and pending statements compared after every event; non-trivial = at least one fault fires "
             "or a table holds >= 2 rows")
     n_hashseeds = 8
-    shard_size = 60
+    shard_size = 25
     needs_scratch_home = True
     impl_timeout = 900
 
@@ -306,7 +362,7 @@ class DbStream(Stream):
 
     def gen(self, rng, tier):
         schema = _schema()
-        n = 120 if tier == "quick" else 4000
+        n = 100 if tier == "quick" else 2000
         cases = []
         for i in range(n):
             r = rng.random()
@@ -404,11 +460,13 @@ class DbStream(Stream):
                 return v
             raise ValueError(f"undecodable cell {v!r}")
 
-        def dump(path, tabs):
+        def dump(path, tabs, full=True):
             con = real_connect(f"file:{path}?mode=ro", uri=True)
             try:
                 out = {}
                 for ti in range(len(live)):
+                    if ti not in tabs and not full:
+                        continue
                     if ti in tabs:
                         rows = [[dec(x) for x in r] for r in con.execute(f"SELECT * FROM {live[ti][0]}")]
                         if rows:
@@ -445,8 +503,9 @@ class DbStream(Stream):
                 pub_path = os.path.realpath(mgr.pub_path)
                 tabs = set(c["tables"])
                 obs = []
-                for ev in c["events"]:
+                for ei, ev in enumerate(c["events"]):
                     raised = False
+                    last = ei == len(c["events"]) - 1      # untouched tables are inspected once, at the end
                     if ev == "health":
                         mgr.recover_pub_from_pri()
                     else:
@@ -487,7 +546,7 @@ class DbStream(Stream):
                                 locker = None
                     obs.append({"raised": raised, "tries": mgr.pub_dao.n_tries,
                                 "npri": pending(mgr.pri_dao), "npub": pending(mgr.pub_dao),
-                                "pri": dump(pri_path, tabs), "pub": dump(pub_path, tabs)})
+                                "pri": dump(pri_path, tabs, last), "pub": dump(pub_path, tabs, last)})
                 mgr.on_workflow_shutdown()
                 return {"schema": schema_out, "obs": obs}
             finally:
@@ -598,6 +657,12 @@ class DbStream(Stream):
                 else:
                     if o["npri"]:
                         return f"event {i}: private write returned normally with {o['npri']} statements still queued", "pri-queue"
+                    if (prev["npri"] == 0 and not _has_magic(ev["ops"]) and not any(
+                            op[0] == "upd" and any(ci in r["schema"][op[1]][1] for ci, _ in op[2]) for op in ev["ops"])):
+                        want = _ref_apply(r["schema"], prev["pri"], ev["ops"])
+                        if want != o["pri"]:
+                            return (f"event {i}: the private database after the committed batch is not the batch applied "
+                                    f"to the previous state: expected {want} got {o['pri']}"), "pri-content"
                     if o["tries"] > prev["tries"]:            # public write failed
                         if o["pub"] != prev["pub"]:
                             return (f"event {i}: public write failed but the public database changed: "
